@@ -2006,9 +2006,43 @@ fn judge_point(
     let outcome_code: u64;
     match (&first, case.kind) {
         (_, Kind::CollidingExtras) => {
-            // don't-care beyond "no panic" (which the guards above established)
+            // don't-care beyond "no panic" (which the guards above established) — except where nothing collides
+            // after all: an extra named like a protocol attribute the app does not have (fp / cohort fields
+            // unset) is simply one more extra field and must be sent verbatim
             r.hit("extras-verbatim");
             r.count("colliding_extras_no_panic", 1);
+            if let Ok(b) = &first {
+                if let Ok(doc) = serde_json::from_slice::<Value>(&b.body) {
+                    let apps_json = doc.get("request").and_then(|x| x.get("app")).and_then(|x| x.as_array()).cloned().unwrap_or_default();
+                    for s_app in &model.apps {
+                        for (k, val) in &s_app.first.extras {
+                            let attribute_absent = match k.as_str() {
+                                "fp" => s_app.first.fp.is_none(),
+                                "cohort" => s_app.first.cohort[0].is_none(),
+                                "cohorthint" => s_app.first.cohort[1].is_none(),
+                                "cohortname" => s_app.first.cohort[2].is_none(),
+                                _ => false,
+                            };
+                            if !attribute_absent {
+                                continue;
+                            }
+                            let objs: Vec<&Value> = apps_json.iter().filter(|o| o.get("appid").and_then(|x| x.as_str()) == Some(s_app.first.id.as_str())).collect();
+                            if objs.len() != 1 {
+                                continue;
+                            }
+                            r.count("colliding_extras_absent_attribute_judged", 1);
+                            if objs[0].get(k.as_str()) != Some(&Value::String(val.clone())) {
+                                r.violation(
+                                    "extras-verbatim",
+                                    "extras-verbatim named-like-absent-attribute",
+                                    format!("app {:?} has no {} of its own and an extra field {:?} = {:?}; the request carries {:?}", s_app.first.id, k, k, val, objs[0].get(k.as_str())),
+                                    replay.clone(),
+                                );
+                            }
+                        }
+                    }
+                }
+            }
             outcome_code = if first.is_ok() { 1 } else { 2 };
         }
         (Err(e), Kind::BadUrl) => {
